@@ -451,6 +451,78 @@ def r08_5(ctx, rep):
         raise MechanismMissing(R, "no `<base>.type == \"__builtin\"` test left in flatten_extends")
 
 
+PARSER = "src/pymoca/parser.py"
+
+
+@SPEC.rule(
+    "R08.6",
+    "a declaration's `= expr` takes part in the merge like any other modification: on every path through the value branch of "
+    "ASTListener.exitDeclaration the `value` argument built from it is appended to the symbol's class modification (a fresh one "
+    "is attached to the symbol), and nowhere in the parser is a modifiable attribute (value, start, min, ...) of a Symbol "
+    "assigned directly — a value written past the modification list is not overridden by an outer `(x = ...)` and wins regardless of nesting",
+)
+def r08_6(ctx, rep):
+    R = "R08.6"
+    fn = ctx.methods(PARSER, "ASTListener", R).get("exitDeclaration")
+    if fn is None:
+        raise MechanismMissing(R, "ASTListener.exitDeclaration not found")
+    site = PARSER + ":ASTListener.exitDeclaration"
+    cfg = CFG(fn, R)
+    allocs = [x for x in cfg.stmts() if isinstance(x.ast, ast.Assign) and isinstance(x.ast.value, ast.Call)
+              and (call_name(x.ast.value) or "").endswith("ClassModificationArgument") and isinstance(x.ast.targets[0], ast.Name)]
+    if not allocs:
+        raise MechanismMissing(R, "exitDeclaration no longer wraps the declared value into a ClassModificationArgument")
+    for al in allocs:
+        v = al.ast.targets[0].id
+        apps = [x for x in cfg.stmts() if any(isinstance(c.func, ast.Attribute) and c.func.attr in ("append", "insert") and norm(c.func.value).endswith(".arguments")
+                                                 and any(norm(a) == v for a in c.args) for c in calls(x.ast))]
+        bad = cfg.must_pass(al.id, cfg.exit, {x.id for x in apps}) if apps else [al.id]
+        rep.ob(R, site, "the value argument reaches the symbol's modification list on every path", bad is None,
+               "after `%s` a path leaves the declaration without appending it to <symbol>.class_modification.arguments: the declared value "
+               "bypasses apply_symbol_modifications and its ordering against outer modifications" % norm(al.ast)[:60],
+               path=cfg.describe(bad) if bad and apps else "")
+        # a fresh list must be attached to the symbol
+        for x in apps:
+            for c in calls(x.ast):
+                if isinstance(c.func, ast.Attribute) and norm(c.func.value).endswith(".arguments") and isinstance(c.func.value.value, ast.Name):
+                    holder = c.func.value.value.id
+                    attach = [y for y in cfg.stmts() if isinstance(y.ast, ast.Assign) and norm(y.ast.value) == holder
+                              and norm(y.ast.targets[0]).endswith(".class_modification")]
+                    ok = bool(attach) and cfg.must_pass(x.id, cfg.exit, {y.id for y in attach}) is None
+                    rep.ob(R, site, "the fresh modification list `%s` is attached to the symbol" % holder, ok,
+                           "`%s` receives the value argument but is not stored in <symbol>.class_modification on every path" % holder)
+        # the wrapped argument is named `value`
+        named = any(isinstance(n, ast.Call) and (call_name(n) or "").endswith("ComponentRef") and any(k.arg == "name" and isinstance(k.value, ast.Constant) and k.value.value == "value" for k in n.keywords)
+                    for n in ast.walk(fn))
+        rep.ob(R, site, "the argument addresses the `value` attribute", named, "the wrapping ElementModification no longer names the component `value`")
+    # no direct writes of modifiable attributes on symbols anywhere in the listener
+    attrs = {"value"}
+    for st in ctx.cls("src/pymoca/ast.py", "Symbol", R).body:
+        if isinstance(st, ast.Assign) and norm(st.targets[0]) == "ATTRIBUTES":
+            attrs |= {x.value for x in ast.walk(st.value) if isinstance(x, ast.Constant) and isinstance(x.value, str)}
+    n_sym = 0
+    direct = []
+    for name, m in ctx.methods(PARSER, "ASTListener", R).items():
+        syms = set()
+        for n in walk_local(m):
+            if isinstance(n, ast.Assign) and len(n.targets) == 1 and isinstance(n.targets[0], ast.Name) and (
+                    norm(n.value) == "self.symbol_node" or (isinstance(n.value, ast.Call) and (call_name(n.value) or "").endswith("Symbol"))):
+                syms.add(n.targets[0].id)
+        syms.add("self.symbol_node")
+        n_sym += len(syms) - 1
+        for n in walk_local(m):
+            if isinstance(n, (ast.Assign, ast.AugAssign)):
+                for t in (n.targets if isinstance(n, ast.Assign) else [n.target]):
+                    if isinstance(t, ast.Attribute) and t.attr in attrs and norm(t.value) in syms:
+                        direct.append("%s (line %d): %s" % (name, n.lineno, norm(n)[:60]))
+            elif isinstance(n, ast.Call) and is_name(n.func, "setattr") and n.args and norm(n.args[0]) in syms:
+                direct.append("%s (line %d): %s" % (name, n.lineno, norm(n)[:60]))
+    if n_sym < 2:
+        raise MechanismMissing(R, "fewer than two symbol-typed locals found in ASTListener (type resolution of `sym` broke)")
+    rep.ob(R, PARSER + ":ASTListener", "no modifiable symbol attribute is assigned directly by the parser", not direct,
+           "; ".join(direct[:4]) + " — the attribute is set before any modification is applied and no modification list knows about it")
+
+
 # -- seeded variants ---------------------------------------------------------
 from ._mut import delete_stmt_where, replace_in_func  # noqa: E402
 
@@ -552,3 +624,15 @@ def _m_nested_scope(mod):
         return False
 
     return mod if replace_in_func(mod, "build_instance_tree", edit) else None
+
+
+@SPEC.mutant("plain declared value written straight into the symbol", PARSER, "R08.6", "modification list")
+def _m_declvalue(mod):
+    def edit(fn):
+        for n in ast.walk(fn):
+            if isinstance(n, ast.If) and norm(n.test) == "sym.class_modification is None":
+                n.body = ast.parse("sym.value = mod").body
+                return True
+        return False
+
+    return mod if replace_in_func(mod, "ASTListener.exitDeclaration", edit) else None
